@@ -13,6 +13,7 @@ import (
 	"fmt"
 	"math/rand"
 	"sync"
+	"sync/atomic"
 	"testing"
 	"time"
 
@@ -93,7 +94,7 @@ func envOpts(env int, v uint32) []ref.Opt {
 }
 
 func TestRun(t *testing.T) {
-	rec := vr.New("C20", "exhaustive: 32 No-Response values x 256 response codes (+ PRNG 32-bit values x 256 codes) on IsNoResponseCode and ResponseWriter.SetResponse; wire: every (value 0..31 plus PRNG values 32..255, code 0..255) x {CON,NON} x request methods GET/POST/PUT/DELETE/FETCH/PATCH/iPATCH on a real udp connection and on a real tcp connection, emitted datagrams/frames inspected; every request in one of 6 option environments (No-Response alone, with lower options, with options numbered above 258 such as 2049/2053/65000, behind many lower options); the library's own 4.04 generators (mux router default handler, default handlers of the udp/dtls/tcp client and server configurations) for every value. Distinct = (kind,value,code[,type]) visited once by construction.")
+	rec := vr.New("C20", "exhaustive: 32 No-Response values x 256 response codes (+ PRNG 32-bit values x 256 codes) on IsNoResponseCode and ResponseWriter.SetResponse; wire: every (value 0..31 plus PRNG values 32..255, code 0..255) x {CON,NON} x request methods GET/POST/PUT/DELETE/FETCH/PATCH/iPATCH on a real udp connection and on a real tcp connection, emitted datagrams/frames inspected (every eighth handler hijacks and releases the request before it answers); every request in one of 6 option environments (No-Response alone, with lower options, with options numbered above 258 such as 2049/2053/65000, behind many lower options); the library's own 4.04 generators (mux router default handler, default handlers of the udp/dtls/tcp client and server configurations) for every value. Distinct = (kind,value,code[,type]) visited once by construction.")
 	defer rec.Flush(true)
 	seed := vr.Seed()
 	rnd := rand.New(rand.NewSource(seed))
@@ -178,6 +179,7 @@ func TestRun(t *testing.T) {
 	runUDP(rec, filter(cases, "udp"))
 	runTCP(rec, filter(cases, "tcp"))
 	runLibraryHandlers(rec, wireValues)
+	rec.Count("handlers_that_took_the_request_over_and_released_it", ownedHandlers.Load())
 	rec.SetExhaustive(true)
 	rec.Sample(cases[0])
 	rec.Sample(cases[1])
@@ -203,6 +205,8 @@ type hres struct {
 	err  error
 	runs int
 }
+
+var ownedHandlers atomic.Int64
 
 func tokenOf(i int) []byte {
 	b := make([]byte, 4)
@@ -232,9 +236,16 @@ func runUDP(rec *vr.Rec, cases []e2eCase) {
 			if r.Token()[3]&1 == 1 {
 				ropts = []message.Option{{ID: message.ETag, Value: []byte{0xca, 0xfe}}, {ID: message.MaxAge, Value: []byte{60}}}
 			}
+			k := binary.BigEndian.Uint32(r.Token())
+			if r.Token()[3]&7 == 3 {
+				// every eighth handler takes the request over and is done with it before it answers: whether the reply
+				// is suppressed, and what a confirmable request gets instead, must not depend on the request object
+				r.Hijack()
+				w.Conn().ReleaseMessage(r)
+				ownedHandlers.Add(1)
+			}
 			err := w.SetResponse(codes.Code(b[0]), message.TextPlain, bytes.NewReader([]byte("r")), ropts...)
 			mu.Lock()
-			k := binary.BigEndian.Uint32(r.Token())
 			if results[k] == nil {
 				results[k] = &hres{}
 			}
@@ -382,9 +393,16 @@ func runTCP(rec *vr.Rec, cases []e2eCase) {
 			if r.Token()[3]&1 == 1 {
 				ropts = []message.Option{{ID: message.ETag, Value: []byte{0xca, 0xfe}}, {ID: message.MaxAge, Value: []byte{60}}}
 			}
+			k := binary.BigEndian.Uint32(r.Token())
+			if r.Token()[3]&7 == 3 {
+				// every eighth handler takes the request over and is done with it before it answers: whether the reply
+				// is suppressed, and what a confirmable request gets instead, must not depend on the request object
+				r.Hijack()
+				w.Conn().ReleaseMessage(r)
+				ownedHandlers.Add(1)
+			}
 			err := w.SetResponse(codes.Code(b[0]), message.TextPlain, bytes.NewReader([]byte("r")), ropts...)
 			mu.Lock()
-			k := binary.BigEndian.Uint32(r.Token())
 			if results[k] == nil {
 				results[k] = &hres{}
 			}
